@@ -484,14 +484,26 @@ def run_progress(rep, facts):
         return None
 
     # -- the callees' postconditions --------------------------------------------------------------------------------------
+    # parse_head's result tells parse() whether to go round again.  Whatever type carries that verdict (ControlFlow, bool, ..), the
+    # result values are grouped into tokens; a token on which *every* path of parse_head has consumed input may be continued on.
+    def token_of(ret):
+        if isinstance(ret, tuple) and ret[0] == 'enum' and ret[1] == 1:
+            return ('err',)
+        if isinstance(ret, tuple) and ret[0] == 'enum' and ret[1] == 0 and ret[2]:
+            inner = ret[2][0]
+            if isinstance(inner, tuple) and inner[0] == 'enum':
+                return ('enum', inner[1])
+            if isinstance(inner, tuple) and inner[0] == 'bool':
+                return ('bool', inner[1])
+        return ('unknown',)
     okc = True
+    tokens = {}
     for fn, is_result in (("parse_head", True), ("parse_payload", False)):
         name = SP + "::" + fn
         b = facts.body(name)
         it = R.Interp(facts, CURSORS, len_of="buffer", inline={SP + "::is_record_boundary"}, contracts={k: v for k, v in base.items() if k != name})
         ends = it.run(b)
         bad = []
-        ncont = 0
         for e in ends:
             h, ctx = e.heap, e.ctx
             r_, f_ = h.get("raw_start"), h.get("free_start")
@@ -503,25 +515,23 @@ def run_progress(rep, facts):
             if not ctx.le(raw0, r_):
                 bad.append(("raw_start may move backwards (%s)" % r_, e.trace))
             if is_result:
-                ret = e.ret
-                cont = None
-                if isinstance(ret, tuple) and ret[0] == 'enum' and ret[1] == 1:
-                    cont = False                                   # Err(_)
-                elif isinstance(ret, tuple) and ret[0] == 'enum' and ret[1] == 0 and ret[2] and isinstance(ret[2][0], tuple) and ret[2][0][0] == 'enum':
-                    cont = (ret[2][0][1] == 0)                     # Ok(Continue) / Ok(Break)
-                if cont is None or cont:
-                    ncont += 1
-                    if not ctx.le(raw0 + 1, r_):
-                        bad.append(("a path returning Ok(Continue) (or an untracked result) has not consumed any input (raw_start %s)" % r_, e.trace))
+                tk = token_of(e.ret)
+                tokens.setdefault(tk, []).append(ctx.le(raw0 + 1, r_))
         key = "%s/progress-contract" % fn
+        names = {('enum', 0): "Ok(Continue)", ('enum', 1): "Ok(Break)", ('bool', 1): "Ok(true)", ('bool', 0): "Ok(false)", ('err',): "Err", ('unknown',): "untracked result"}
         if bad:
             okc = False
             rep.violation("R3.12", key, bad[0][0], b.loc(), path=bad[0][1][-10:])
-        elif not ends or (is_result and not ncont):
+        elif not ends:
             okc = False
-            rep.undecidable("R3.12", key, "no %s path interpreted" % ("Ok(Continue)" if ends else "return"), b.loc())
+            rep.undecidable("R3.12", key, "no return path interpreted", b.loc())
+        elif is_result and not any(all(v) for k, v in tokens.items() if k != ('err',)):
+            okc = False
+            rep.violation("R3.12", key, "no result of parse_head guarantees that input was consumed (%s): the processing loop could go round without progress"
+                          % {names.get(k, str(k)): "%d/%d paths advance raw_start" % (sum(v), len(v)) for k, v in tokens.items()}, b.loc())
         else:
-            rep.ok("R3.12", key, "%d path(s): free_start untouched, raw_start monotone%s" % (len(ends), "; Ok(Continue) only after raw_start advanced (%d path(s))" % ncont if is_result else ""), b.loc())
+            rep.ok("R3.12", key, "%d path(s): free_start untouched, raw_start monotone%s" % (
+                len(ends), "; results after which raw_start has advanced on every path: %s" % sorted(names.get(k, str(k)) for k, v in tokens.items() if all(v) and k != ('err',)) if is_result else ""), b.loc())
 
     # -- the loop, using them ---------------------------------------------------------------------------------------------
     def havoc(it, st, strict):
@@ -543,9 +553,18 @@ def run_progress(rep, facts):
     def c_head(it, st, args, dty):
         cons = havoc(it, st, True)
         unit = ('tuple', [])
-        return [(('enum', 0, (('enum', 0, (unit,)),)), cons, "parse_head consumed a header"),
-                (('enum', 0, (('enum', 1, (unit,)),)), [], "parse_head stops the loop"),
-                (('enum', 1, (it.opaque(),)), [], "parse_head fails")]
+        alts = []
+        for tk, vs in sorted(tokens.items()):
+            if tk == ('err',):
+                val = ('enum', 1, (it.opaque(),))
+            elif tk[0] == 'enum':
+                val = ('enum', 0, (('enum', tk[1], (unit,)),))
+            elif tk[0] == 'bool':
+                val = ('enum', 0, (('bool', tk[1]),))
+            else:
+                val = it.opaque()
+            alts.append((val, cons if all(vs) else [], "parse_head returns %s" % (tk,)))
+        return alts
 
     def c_payload(it, st, args, dty):
         havoc(it, st, False)
